@@ -18,6 +18,8 @@ From Coq Require Import List NArith ZArith Bool Lia.
 From Coq.Strings Require Import Byte.
 From SP Require Import Bytes Params Msgpack Crypto Errors Nonce Packets Verify Decrypt Signcrypt Armor
   PanicSites PanicModel ToyCrypto NoPanicProofs.
+From SP Require Import GoLang GoAst GoAstProofs.
+From Coq Require String.
 Import ListNotations.
 
 Definition sb_open_len (c : crypto) : Prop :=
@@ -81,6 +83,16 @@ Theorem C15_classify_no_logic_panic (pref : bytes) :
   partial_words_ok 5 s = true -> (1 <= List.length (words s) <= 5)%nat.
 Proof. exact (classify_no_logic_panic pref). Qed.
 
+(* SOURCE TIE: the term f_saltpack_checkChunkState is generated on every run from the Go syntax tree of
+   /repo's checkChunkState (harness/cmd/gen/goast.go); under the Go semantics of model/GoLang.v it computes
+   exactly what the model says, for ALL arguments.  An edit of that function in /repo changes
+   the term and this theorem has to be re-established. *)
+Theorem C15_source_checkChunkState (v : version) (l : nat) (i : N) (f : bool) :
+  g_result1 (run_func no_ext f_saltpack_checkChunkState [g_version v; VInt (Z.of_nat l); VInt (Z.of_N i); VBool f])
+  = m_result1 (check_chunk_state v l i f).
+Proof. exact (go_checkChunkState v l i f). Qed.
+
+Print Assumptions C15_source_checkChunkState.
 Print Assumptions C15_inventory_covered.
 Print Assumptions C15_shipped_validators_ok.
 Print Assumptions C15_verify_stream_no_panic.
